@@ -862,6 +862,7 @@ type refCase struct {
 	Brokers     []int64    `json:"brokers"`
 	Unreachable []int64    `json:"unreachable"`
 	Rounds      []refRound `json:"rounds"`
+	After       *refRound  `json:"after,omitempty"` // candidate lists after the last call (deadline cases)
 }
 
 // refusedAddr reserves a loopback port that refuses connections for as long as it is held: the socket is bound
@@ -1292,11 +1293,262 @@ func monitorConc(c *concCase, harness []string) *cf.Monitor {
 	return nil
 }
 
+// ---------------------------------------------------------------- candidate iteration under a metadata deadline
+// Metadata.Timeout is set (dlTimeout); a "slow" candidate accepts the connection, stays silent for dlSlow (> the
+// time-out) and then closes it, so the deadline passes during the attempt on it. What is asserted does not depend
+// on when exactly the deadline passes: the model accepts any moment, the monitor states only timing-free rules,
+// and a monitor failure counts only if the same script fails twice.
+const dlTimeout = 150 * time.Millisecond
+const dlSlow = 220 * time.Millisecond
+
+type dlScript struct {
+	SeedAddrs   []int64             `json:"seed_listeners"`
+	Brokers     []int64             `json:"brokers"`
+	Unreachable []int64             `json:"unreachable"`
+	Attempts    int                 `json:"attempts"`
+	Rounds      []map[string]string `json:"rounds"` // per refresh: listener -> drop | slow (absent: healthy); the constructor runs with everybody healthy
+}
+type dlCase struct {
+	Script dlScript `json:"script"`
+	refCase
+}
+
+func genDl(r *rand.Rand) dlScript {
+	var s dlScript
+	if r.Intn(3) == 0 {
+		s.Brokers = []int64{1}
+	}
+	cand := []int64{1, 4, 5, 6}
+	if len(s.Brokers) == 0 {
+		cand = []int64{4, 5, 6}
+	}
+	r.Shuffle(len(cand), func(i, j int) { cand[i], cand[j] = cand[j], cand[i] })
+	for _, l := range cand[:1+r.Intn(2)] {
+		s.SeedAddrs = append(s.SeedAddrs, l)
+	}
+	s.Attempts = r.Intn(2)
+	used := append([]int64{}, s.Brokers...)
+	for _, l := range s.SeedAddrs {
+		if !memI(l, used) {
+			used = append(used, l)
+		}
+	}
+	nr := 2 + r.Intn(2)
+	template := r.Intn(2) == 0 // everybody fails (somebody slowly), then everybody has recovered
+	for i := 0; i < nr; i++ {
+		m := map[string]string{}
+		for _, l := range used {
+			k := strconv.Itoa(int(l))
+			switch {
+			case template && i == 0:
+				m[k] = []string{"slow", "slow", "drop"}[r.Intn(3)]
+			case template:
+			default:
+				switch r.Intn(5) {
+				case 0:
+					m[k] = "drop"
+				case 1, 2:
+					m[k] = "slow"
+				}
+			}
+		}
+		if template && i == 0 {
+			m[strconv.Itoa(int(used[len(used)-1]))] = "slow"
+		}
+		s.Rounds = append(s.Rounds, m)
+	}
+	return s
+}
+
+func runDl(s dlScript) (dlCase, []string) {
+	rep := &reporter{}
+	c := dlCase{Script: s}
+	c.SeedAddrs, c.Brokers, c.Unreachable, c.Attempts = s.SeedAddrs, s.Brokers, s.Unreachable, s.Attempts
+	used := append([]int64{}, s.Brokers...)
+	for _, l := range s.SeedAddrs {
+		if !memI(l, used) {
+			used = append(used, l)
+		}
+	}
+	var mu sync.Mutex
+	var tried []int64
+	mode := map[int64]string{}
+	addrs := map[int64]string{}
+	var open []*sarama.MockBroker
+	for _, l := range used {
+		b := sarama.NewMockBroker(rep, int32(l))
+		addrs[l] = b.Addr()
+		open = append(open, b)
+	}
+	defer func() {
+		for _, b := range open {
+			b.Close()
+		}
+	}()
+	for _, b := range open {
+		l := int64(b.BrokerID())
+		b.VerifC19SetHandler(func(q sarama.VerifC19Request) interface{} {
+			if q.Kind != "MetadataRequest" {
+				rep.add("unexpected request " + q.Kind)
+				return nil
+			}
+			mu.Lock()
+			tried = append(tried, l)
+			m := mode[l]
+			mu.Unlock()
+			switch m {
+			case "slow":
+				time.Sleep(dlSlow)
+				return sarama.VerifC19Drop
+			case "drop":
+				return sarama.VerifC19Drop
+			}
+			resp := &sarama.MetadataResponse{Version: q.Version, ControllerID: 1}
+			for _, k := range s.Brokers {
+				resp.AddBroker(addrs[k], int32(k))
+			}
+			return resp
+		})
+	}
+	listenerOf := func(a string) int64 {
+		for l, x := range addrs {
+			if x == a {
+				return l
+			}
+		}
+		return -9
+	}
+	cfg := sarama.NewConfig()
+	cfg.Version = sarama.V1_0_0_0
+	cfg.Metadata.Retry.Max = s.Attempts
+	cfg.Metadata.Retry.Backoff = 0
+	cfg.Metadata.RefreshFrequency = 0
+	cfg.Metadata.Timeout = dlTimeout
+	cfg.Net.DialTimeout = 3 * time.Second
+	cfg.Net.ReadTimeout = 3 * time.Second
+	var seedAddrs []string
+	for _, l := range s.SeedAddrs {
+		seedAddrs = append(seedAddrs, addrs[l])
+	}
+	rd := refRound{Live: append([]int64{}, s.SeedAddrs...)}
+	client, err := sarama.NewClient(seedAddrs, cfg)
+	mu.Lock()
+	rd.Tried = append([]int64{}, tried...)
+	mu.Unlock()
+	rd.OK = err == nil
+	if err != nil {
+		rd.Err = err.Error()
+		c.Rounds = append(c.Rounds, rd)
+		for _, l := range s.SeedAddrs {
+			c.Seeds = append(c.Seeds, 100+l)
+		}
+		return c, append(rep.errs, "NewClient with healthy seeds failed: "+err.Error())
+	}
+	c.Rounds = append(c.Rounds, rd)
+	defer client.Close()
+	live, dead := sarama.VerifC15SeedAddrs(client)
+	for _, a := range dead {
+		c.Seeds = append(c.Seeds, 100+listenerOf(a))
+	}
+	for _, a := range live {
+		c.Seeds = append(c.Seeds, 100+listenerOf(a))
+	}
+	for _, m := range s.Rounds {
+		rd := refRound{}
+		live, dead := sarama.VerifC15SeedAddrs(client)
+		for _, a := range live {
+			rd.Live = append(rd.Live, listenerOf(a))
+		}
+		for _, a := range dead {
+			rd.Dead = append(rd.Dead, listenerOf(a))
+		}
+		for _, b := range client.Brokers() {
+			rd.Known = append(rd.Known, int64(b.ID()))
+		}
+		sort.Slice(rd.Known, func(i, j int) bool { return rd.Known[i] < rd.Known[j] })
+		mu.Lock()
+		tried = nil
+		for _, l := range used {
+			mode[l] = m[strconv.Itoa(int(l))]
+			if mode[l] != "" {
+				rd.Fail = append(rd.Fail, l)
+			}
+		}
+		mu.Unlock()
+		err := client.RefreshMetadata()
+		mu.Lock()
+		rd.Tried = append([]int64{}, tried...)
+		mu.Unlock()
+		rd.OK = err == nil
+		if err != nil {
+			rd.Err = err.Error()
+		}
+		c.Rounds = append(c.Rounds, rd)
+	}
+	// the state the last call left behind
+	last := refRound{}
+	live, dead = sarama.VerifC15SeedAddrs(client)
+	for _, a := range live {
+		last.Live = append(last.Live, listenerOf(a))
+	}
+	for _, a := range dead {
+		last.Dead = append(last.Dead, listenerOf(a))
+	}
+	for _, b := range client.Brokers() {
+		last.Known = append(last.Known, int64(b.ID()))
+	}
+	c.After = &last
+	return c, rep.errs
+}
+
+// monitorDl: only rules that hold whenever the deadline happens to pass
+func monitorDl(c dlCase, harness []string) *cf.Monitor {
+	if len(harness) > 0 {
+		return &cf.Monitor{Signature: "refresh:harness-error", What: strings.Join(harness, "; ")}
+	}
+	states := append([]refRound{}, c.Rounds[1:]...)
+	if c.After != nil {
+		states = append(states, *c.After)
+	}
+	for i, rd := range states {
+		have := append(append([]int64{}, rd.Live...), rd.Dead...)
+		want := append([]int64{}, c.SeedAddrs...)
+		sort.Slice(have, func(i, j int) bool { return have[i] < have[j] })
+		sort.Slice(want, func(i, j int) bool { return want[i] < want[j] })
+		if !eqList(have, want) {
+			return &cf.Monitor{Signature: "refresh:seed-lost", What: fmt.Sprintf("before call %d: seeds %v + set aside %v, given %v", i+1, rd.Live, rd.Dead, c.SeedAddrs)}
+		}
+		stranded := len(rd.Live) == 0 && len(rd.Known) == 0 && len(rd.Dead) > 0
+		if i < len(c.Rounds)-1 {
+			healthy := func(l int64) bool { return !memI(l, rd.Fail) }
+			anyDead := false
+			for _, l := range rd.Dead {
+				anyDead = anyDead || healthy(l)
+			}
+			if stranded && anyDead && !rd.OK {
+				return &cf.Monitor{Signature: "refresh:seed-lost-after-deadline", What: fmt.Sprintf("call %d: every seed %v was left set aside by the call before (it gave up past the deadline), nobody was asked, the call failed although a seed answers (failing now: %v)", i+1, rd.Dead, rd.Fail)}
+			}
+			// the head of the seed list is asked first, right after the deadline was set
+			if len(rd.Live) > 0 && healthy(rd.Live[0]) && !rd.OK {
+				return &cf.Monitor{Signature: "refresh:failed-although-the-first-candidate-answers", What: fmt.Sprintf("call %d: seeds %v failing %v", i+1, rd.Live, rd.Fail)}
+			}
+			if rd.OK && len(rd.Tried) > 0 && !healthy(rd.Tried[len(rd.Tried)-1]) {
+				return &cf.Monitor{Signature: "refresh:succeeded-on-a-failing-candidate", What: fmt.Sprintf("call %d tried %v", i+1, rd.Tried)}
+			}
+		}
+		if stranded {
+			return &cf.Monitor{Signature: "refresh:seeds-stranded-after-give-up", What: fmt.Sprintf("after call %d nobody is left to ask while the seeds %v are set aside", i, rd.Dead)}
+		}
+	}
+	return nil
+}
+
 func main() {
 	out := flag.String("out", ".", "output directory")
 	seed := flag.Int64("seed", 1, "seed")
 	n := flag.Int("n", 200, "number of sequence cases (candidate cases: 2n)")
 	nconc := flag.Int("conc", 4, "number of concurrent-reader cases")
+	ndl := flag.Int("dl", 48, "number of candidate cases under a metadata deadline")
 	flips := flag.Int("flips", 150, "refreshes per concurrent-reader case")
 	flag.Parse()
 	sarama.Logger = nopLogger{}
@@ -1327,7 +1579,50 @@ func main() {
 		wn.Add(concTerm(c), cf.Sidecar{Case: map[string]interface{}{"a": c.A, "b": c.B, "flips": c.Flips, "reads": len(c.Reads), "only_a": c.OnlyA, "only_b": c.OnlyB}, Kind: "concurrent-readers",
 			Nontrivial: c.OnlyA > 0 && c.OnlyB > 0, Monitor: mon})
 	}
+	// deadline cases wait for real time: scripts are generated first, then run 16 at a time
+	wd := &cf.Writer{Dir: *out, Prefix: "cases_dl", Imports: imports, CaseType: "rcase", MismatchFn: "mismatches_dl", ShardSize: 100}
+	scripts := make([]dlScript, *ndl)
+	for i := range scripts {
+		scripts[i] = genDl(r)
+	}
+	type dlRes struct {
+		c   dlCase
+		mon *cf.Monitor
+	}
+	results := make([]dlRes, *ndl)
+	sem := make(chan struct{}, 16)
+	var wg sync.WaitGroup
+	for i := range scripts {
+		wg.Add(1)
+		sem <- struct{}{}
+		go func(i int) {
+			defer wg.Done()
+			defer func() { <-sem }()
+			c, herr := runDl(scripts[i])
+			mon := monitorDl(c, herr)
+			if mon != nil { // timing is involved: a failure counts only if the same script fails again
+				c2, herr2 := runDl(scripts[i])
+				if mon2 := monitorDl(c2, herr2); mon2 == nil {
+					c, mon = c2, nil
+				}
+			}
+			results[i] = dlRes{c, mon}
+		}(i)
+	}
+	wg.Wait()
+	for _, x := range results {
+		slow := 0
+		for _, m := range x.c.Script.Rounds {
+			for _, v := range m {
+				if v == "slow" {
+					slow++
+				}
+			}
+		}
+		wd.Add(refTerm(x.c.refCase), cf.Sidecar{Case: x.c, Kind: "candidates-deadline", Nontrivial: slow >= 1 && len(x.c.Rounds) >= 3, Monitor: x.mon})
+	}
 	ws.Close()
 	wr.Close()
 	wn.Close()
+	wd.Close()
 }
